@@ -17,6 +17,10 @@ type gor struct {
 	blocked func() bool // nil when runnable; else predicate "can proceed"
 	what    string
 	main    bool
+	// a goroutine waiting with a context timeout: if nothing else can run the
+	// timeout is what ends the wait
+	canTimeout bool
+	timedOut   bool
 }
 
 type killSignal struct{}
@@ -74,6 +78,9 @@ func (ex *exec) handoffFromDead(g *gor) {
 		return
 	}
 	next := ex.pickNext(g)
+	if next == nil {
+		next = ex.fireTimeout(g)
+	}
 	if next == nil {
 		// everybody else is blocked: deadlock; main handles it
 		ex.pendingAbort = &abort{"deadlock", ex.describeBlocked()}
@@ -135,6 +142,9 @@ func (ex *exec) block(what string, cond func() bool) {
 		g.what = what
 		next := ex.pickNext(g)
 		if next == nil {
+			next = ex.fireTimeout(g)
+		}
+		if next == nil {
 			g.blocked = nil
 			ex.abortFrom(g, abort{"deadlock", ex.describeBlocked()})
 		}
@@ -142,6 +152,18 @@ func (ex *exec) block(what string, cond func() bool) {
 	}
 	g.blocked = nil
 	g.what = ""
+}
+
+// fireTimeout picks a goroutine that waits with a timeout and lets the timeout expire.
+func (ex *exec) fireTimeout(self *gor) *gor {
+	for _, o := range ex.gors {
+		if o != self && !o.done && o.canTimeout && o.blocked != nil {
+			o.timedOut = true
+			o.blocked = nil
+			return o
+		}
+	}
+	return nil
 }
 
 // abortFrom ends the path from goroutine g.
